@@ -126,7 +126,8 @@ let check_mpmc_seq cap exts valid ops =
                (String.concat "," (List.map string_of_int got))
                (String.concat "," (List.map string_of_int o.vals));
            List.iter (fun v -> feed i (EDeq (O, n_of_int v))) o.vals;
-           if List.length o.vals < o.arg then feed i (EDeqFail O);
+           (* res = 2: the iterator blocked and was cancelled by the driver (no failing receive) *)
+           if List.length o.vals < o.arg && o.res <> 2 then feed i (EDeqFail O);
            feed i (EClose O)
          | _ -> ());
         let msize = int_of_nat (size !s.g) and mcap = int_of_nat !s.g.cap in
